@@ -452,3 +452,16 @@ func libFrameSite(stack string) string {
 	}
 	return "?"
 }
+
+// AlignIDSeed lets simulated time pass until the low 32 bits of the clock in
+// nanoseconds - from which REQ and SURVEYOR seed their request / survey id
+// counters - are within a few counts of wrapping, so that a socket created
+// next hands out ids that cross the 32-bit boundary during the run (a
+// long-lived socket gets there after 2^31 requests).
+func (w *W) AlignIDSeed(below uint32) {
+	now := uint32(time.Now().UnixNano())
+	target := ^uint32(0) - below
+	w.Sleep(time.Duration(target - now)) // (uint32 arithmetic: at most 4.3 s)
+	w.Settle()
+	w.Probe("id-counter-crosses-32-bit-wrap")
+}
